@@ -29,7 +29,7 @@ PureOK(r) ==
 
 \* ---- (b) on-disk runs -------------------------------------------------------
 Fresh(e) == [job |-> e.job, run |-> e.run, cap |-> e.cfg.cap, since |-> 0, listed |-> FALSE, published |-> FALSE,
-             viol |-> {}, writes |-> 0, maint |-> 0]
+             viol |-> {}, writes |-> 0, maint |-> 0, maywritefail |-> Has(e.cfg, "maywritefail") /\ e.cfg.maywritefail]
 P(s) == IF s.cap \div 3 = 0 THEN 1 ELSE s.cap \div 3
 IsKey(n) == Len(n) > 0 /\ SubSeq(n, 1, 1) # "."
 Count(snap) == Cardinality({n \in DOMAIN snap.ents["W"] : IsKey(n)})
@@ -45,11 +45,13 @@ Step(s, e) ==
         LET since2 == IF s.listed THEN 0 ELSE s.since + 1
             v1 == IF since2 >= P(s) THEN {<<e.seq, "MaintWindow">>} ELSE {}
             v2 == IF Has(e, "snap") /\ "W" \in DOMAIN e.snap.ents /\ Count(e.snap) > s.cap + P(s) THEN {<<e.seq, "CountBound">>} ELSE {}
-            v3 == IF e.ok /\ ~e.panic THEN {} ELSE {<<e.seq, "WriteOK">>}
+            \* (worlds whose temp directory cannot be listed make the firing writes fail -- after their maintenance ran)
+            v3 == IF (e.ok /\ ~e.panic) \/ (Has(s, "maywritefail") /\ s.maywritefail) THEN {} ELSE {<<e.seq, "WriteOK">>}
         IN [s EXCEPT !.since = since2, !.viol = @ \cup v1 \cup v2 \cup v3, !.writes = @ + 1, !.maint = @ + (IF s.listed THEN 1 ELSE 0)]
     ELSE s
 
-Init == l = 1 /\ st = [job |-> "", run |-> 0, cap |-> 0, since |-> 0, listed |-> FALSE, published |-> FALSE, viol |-> {}, writes |-> 0, maint |-> 0]
+Init == l = 1 /\ st = [job |-> "", run |-> 0, cap |-> 0, since |-> 0, listed |-> FALSE, published |-> FALSE, viol |-> {}, writes |-> 0, maint |-> 0,
+                        maywritefail |-> FALSE]
 Next ==
     /\ l <= Len(Rec)
     /\ l' = l + 1
